@@ -353,10 +353,12 @@ func replayMain(args []string) {
 					continue
 				}
 				for _, m := range subs {
-				if *only != "" && getString(m, "kind") != *only {
+				if k := getString(m, "kind"); k == "docscale" && *only == "scale" {
+					// the nesting stages run the document families too
+				} else if *only != "" && k != *only {
 					continue
 				}
-				if getString(m, "kind") == "scale" {
+				if k := getString(m, "kind"); k == "scale" || k == "docscale" {
 					m["deep"] = os.Getenv("VERIF_DEEP") // part of the case identity (known findings name it)
 				}
 				if hangs.Load() >= *maxHangs {
